@@ -49,6 +49,8 @@ Seeds ==
   [fam : {"cwnS"}, x : {BOfInt(i) : i \in (0 - LbAbs)..LbAbs}]
   \cup [fam : {"cwnB", "ucwn", "scwn"}, x : I64Fam]
   \cup [fam : {"nsnn"}, x : U64Fam]
+  \* reader only: X.691 encodings of numbers the 64-bit API cannot hold (9 octets) - "never a wrapped value"
+  \cup [fam : {"rdbig"}, x : {BPow2(64), BAdd(BPow2(64), BOfInt(1)), BAdd(BPow2(64), BPow2(8)), BPow2(71)}]
   \cup [fam : {"idx"}, x : {BOfInt(i) : i \in {0, 1, 2, 3, 4, 5, 8, 9, 64, 65, 256, 257}}]
   \cup [fam : {"len", "oct", "bits"}, x : {BOfInt(i) : i \in 1..Len(FormSeq)}]
 
@@ -65,6 +67,8 @@ Expand(s) ==
     [] s.fam = "scwn" ->
          {NumCase("scwn", s.x, NoB, v, IF InU64(BSub(v, s.x)) \/ BLess(v, s.x) THEN SemiConstrainedB(s.x, v) ELSE Err) : v \in I64Fam}
     [] s.fam = "nsnn" -> {NumCase("nsnn", NoB, NoB, s.x, NormallySmallB(s.x))}
+    [] s.fam = "rdbig" -> {NumCase("rdscwn", BZero, NoB, s.x, SemiConstrainedB(BZero, s.x)),
+                           NumCase("rdnsnn", NoB, NoB, s.x, NormallySmallB(s.x))}
     [] s.fam = "idx" ->
          LET std == BToInt(s.x)
          IN {Case("idx", NoB, NoB, NoB, FALSE, FALSE, ext, std, Index(std, ext, i).ok, Index(std, ext, i).bits, i, <<>>) :
